@@ -8,6 +8,7 @@ import (
 
 	"github.com/bandprotocol/chain/v3/zzverif/engine"
 	_ "github.com/bandprotocol/chain/v3/zzverif/sched"
+	"github.com/bandprotocol/chain/v3/zzverif/sched/c19"
 )
 
 func main() {
@@ -56,6 +57,19 @@ func main() {
 			os.Exit(1)
 		}
 		fmt.Println("replay: no violation on this tree")
+		os.Exit(0)
+	}
+	if os.Args[2] == "race" {
+		// free-running pass of the harness bodies for a -race build (C19 only)
+		ok, incomplete, problems := c19.RaceBodies(30)
+		fmt.Printf("race-pass: runs=%d incomplete=%d oracle-problems=%d\n", ok, incomplete, len(problems))
+		for _, p := range problems {
+			fmt.Println("  ", p)
+		}
+		engine.CleanupHomes()
+		if len(problems) > 0 {
+			os.Exit(1)
+		}
 		os.Exit(0)
 	}
 	run := engine.NewRun(id, os.Args[2])
